@@ -182,3 +182,50 @@ func verifNormalizedOK(in []string, maxCount int) bool {
 	}
 	return len(seen) == len(want)
 }
+
+// verifCredsKnown: normalizeCredentials applied to the three credentials numbered i, j, k (method one of "email",
+// "tel", "bogus", "" - the first two configured - with and without a value) keeps only credentials of configured
+// methods, at most one per method, with a value when one is required, and keeps one for every configured method
+// that the input offers acceptably.
+func verifCredsKnown(i, j, k, valueRequired int) bool {
+	saved := globals.validators
+	globals.validators = map[string]credValidator{"email": {}, "tel": {}}
+	defer func() { globals.validators = saved }()
+	methods := []string{"email", "tel", "bogus", ""}
+	values := []string{"", "x"}
+	mk := func(n int) MsgCredClient { return MsgCredClient{Method: methods[n%4], Value: values[(n/4)%2]} }
+	in := []MsgCredClient{mk(i), mk(j), mk(k)}
+	want := map[string]bool{}
+	for _, c := range in {
+		if _, ok := globals.validators[c.Method]; ok && (valueRequired == 0 || c.Value != "") {
+			want[c.Method] = true
+		}
+	}
+	out := normalizeCredentials(in, valueRequired != 0)
+	seen := map[string]bool{}
+	for _, c := range out {
+		if !want[c.Method] || seen[c.Method] || (valueRequired != 0 && c.Value == "") {
+			return false
+		}
+		seen[c.Method] = true
+	}
+	return len(seen) == len(want)
+}
+
+// verifNthRunes is verifNthString over an alphabet of runes (so that the alphabet may contain non-ASCII letters).
+func verifNthRunes(n int, alphabet string) string {
+	rs := []rune(alphabet)
+	k := len(rs)
+	length, block := 0, 1
+	for n >= block {
+		n -= block
+		block *= k
+		length++
+	}
+	b := make([]rune, length)
+	for i := length - 1; i >= 0; i-- {
+		b[i] = rs[n%k]
+		n /= k
+	}
+	return string(b)
+}
